@@ -76,8 +76,10 @@ def run(ctx, rep, tier):
         for call, ci, fs in s["calls"]:
             for cal in fs:
                 if cal.cls == CQ + "Circuit" and cal.kind == "CXXMethodDecl" and not cal.is_const and not cal.is_static:
-                    tw = eff.transitive().get(cal.key, {"writes": set()})["writes"]
-                    if tw & struct_q:
+                    # a helper setter that itself writes structural members (not the placement stages: what the
+                    # placers may write is C03's frame condition, not the busy protocol)
+                    sc = eff.summary(cal)
+                    if (set(sc["writes"]) | set(sc["escapes"])) & struct_q:
                         call_writes.append((call, cal))
         if not (written & struct_q) and not call_writes:
             continue
@@ -334,7 +336,7 @@ def check_params_first(ctx, rep, f, p2_set):
         lib = bool(fs) or (ci.get("ctor_type", "") or "").startswith(CQ)
         if not lib:
             continue
-        if any(fx.qname in p2_set for fx in fs):
+        if any(validates_first(ctx, fx, p2_set) for fx in fs):
             continue   # callee validates first itself
         n = g.node_for(call)
         if n is None:
@@ -355,6 +357,26 @@ def check_params_first(ctx, rep, f, p2_set):
     else:
         rep.holds("P2", checks[0], f, "params.check() dominates all library calls and Circuit writes",
                   "%d library calls examined" % len(s["calls"]))
+
+
+def validates_first(ctx, f, p2_set, depth=0):
+    """f is one of the check-first entry points, or a thin wrapper whose first library call (ignoring local RAII
+    helpers of the anonymous namespace) is one."""
+    if f.qname in p2_set:
+        return True
+    if depth > 3:
+        return False
+    g = cfg_of(f)
+    calls = []
+    for call, ci, fs in ctx.eff.summary(f)["calls"]:
+        fs = [fx for fx in fs if "(anonymous namespace)" not in (fx.cls or "")]
+        if fs and g.node_for(call) is not None:
+            calls.append((call, fs))
+    for call, fs in calls:
+        n = g.node_for(call)
+        if all(g.dominates(n, g.node_for(c2)) for c2, _f2 in calls):
+            return all(validates_first(ctx, fx, p2_set, depth + 1) for fx in fs)
+    return False
 
 
 def check_p1(ctx, rep):
